@@ -1,6 +1,7 @@
 //! `simcheck check <property> [quick|thorough] [--replay FILE]`
 //! exit 0: property held on everything explored; 1: VIOLATION printed; 2: harness error.
 
+use simv::cases::acctcase::C16Plan;
 use simv::cases::c17plan::C17Plan;
 use simv::cases::hexcase::HexPlan;
 use simv::cases::newplans::{C12Plan, C18Plan};
@@ -51,6 +52,7 @@ fn main() {
         let quick = tier == "quick";
         let (plan, level): (Box<dyn Plan>, &str) = match property.as_str() {
             "C12" => (Box::new(C12Plan { seed, seeded: if quick { 2_500 } else { 120_000 } }), "exploration"),
+            "C16" => (Box::new(C16Plan { seed, seeded: if quick { 6_000 } else { 250_000 } }), "exploration"),
             "C18" => (Box::new(C18Plan { seed, seeded: if quick { 3_000 } else { 150_000 } }), "exploration"),
             "C17" => (
                 Box::new(C17Plan { seed, seeded_new: if quick { 1_500 } else { 60_000 }, seeded_crash: if quick { 20_000 } else { 1_000_000 } }),
